@@ -189,10 +189,10 @@ func lockRules() []*Rule {
 		{ID: "LOCK-2", Props: []string{"C06", "C19"}, Min: 8,
 			Doc: "who-may-call: Database.RUnlock is called only by bracket defers; the driver reaches page reads only through bracketed methods of sqlittle.DB (and Open)",
 			Run: runLock2},
-		{ID: "LOCK-3", Props: []string{"C06", "C08"}, Min: 1,
+		{ID: "LOCK-3", Props: []string{"C06", "C08", "C07", "C09", "C15"}, Min: 1,
 			Doc: "Database.RLock marks the handle dirty on every path that can return nil",
 			Run: runLock3},
-		{ID: "PAGER", Props: []string{"C06", "C07"}, Min: 12,
+		{ID: "PAGER", Props: []string{"C06", "C07", "C17"}, Min: 12,
 			Doc: "unix pager: pending byte then shared range, both F_RDLCK via non-blocking F_SETLK, both errors returned, pending released by defer on all exits, readLock stored only after success; RUnlock unlocks the stored range and clears it; byte ranges equal SQLite's",
 			Run: runPager},
 		{ID: "PAGER-6", Props: []string{"C07", "C09"}, Min: 4,
